@@ -45,6 +45,7 @@ type Engine struct {
 	MaxInstrs     int64
 	MaxDepth      int
 	MaxPaths      int
+	MaxWall       time.Duration // wall-clock budget per harness (0 = none)
 	StrictBounds  bool
 	SelectNondet  bool
 	Workers       int
@@ -153,6 +154,7 @@ type HarnessResult struct {
 	Instrs             int64
 	Asserts            map[string]map[string]int // label -> status -> count
 	Violations         []AssertRec
+	WallBudgetExceeded bool
 	KnownSeen          map[string]AssertRec
 	Inconclusive       []string
 	Reached            map[string]int
@@ -240,6 +242,13 @@ func (e *Engine) Run(h *Harness) (*HarnessResult, error) {
 				mu.Unlock()
 				return
 			}
+			if e.MaxWall > 0 && time.Since(t0) > e.MaxWall {
+				hr.WallBudgetExceeded = true
+				stop = true
+				cond.Broadcast()
+				mu.Unlock()
+				return
+			}
 			prefix := stack[len(stack)-1]
 			stack = stack[:len(stack)-1]
 			active++
@@ -249,6 +258,9 @@ func (e *Engine) Run(h *Harness) (*HarnessResult, error) {
 			if solver.dead {
 				solver.Close()
 				solver, _ = NewSolver(e.SolverName, e.SolverTimeout)
+			}
+			if e.MaxWall > 0 {
+				solver.deadline = t0.Add(e.MaxWall + 30*time.Second)
 			}
 			res := e.runPath(h, fn, prefix, solver)
 
